@@ -4406,6 +4406,8 @@ def _match__inside_list_quantifier(
         Adding to matches means either adding the successful match dictionary to `tagss` or creating an `FSTMatch`
         object and adding it to a dedicated match list which is in `tagss` as its own dictionary with key `pat_tag`."""
 
+        tgt_idx_before = tgt_iter.idx  # where this repetition starts, so that it can be given back whole on greedy back-off
+
         if is_qpat_list:
             qpat_iter.idx = 0  # reset quantifier list pattern to start since _match__inside_list() doesn't reset it on success
             tgt_idx = tgt_iter.idx
@@ -4441,6 +4443,7 @@ def _match__inside_list_quantifier(
                 m = FSTMatch(q_pat, t, m)
 
         matches.insert(matches_ins_idx, m)
+        tgt_idxs.append(tgt_idx_before)
 
         return True
 
@@ -4449,6 +4452,7 @@ def _match__inside_list_quantifier(
     tagss = mstate.new_tagss()
 
     tgt_idx_saved = tgt_iter.idx
+    tgt_idxs = []  # target index at the start of each matched repetition
     tgt_seq = tgt_iter.seq
     is_FST = bool(mstate.is_FST and tgt_seq and not isinstance(tgt_seq[0], (str, FSTView)))  # target lists can only contain ASTs, strings or FSTViews, we only need to check one element because all will be same
     q_pat = pat.pat
@@ -4522,7 +4526,7 @@ def _match__inside_list_quantifier(
         if greedy:  # if greedy then we are removing previous matches to try again one position to the left
             del matches[matches_del_idx]  # if there are static_tags then we are deleting the dictionary before those
 
-            tgt_iter.idx -= 1  # step back 1
+            tgt_iter.idx = tgt_idxs.pop()  # give back everything the last repetition consumed (a sublist repetition can consume more than one element)
             count -= 1
 
         else:  # if non-greedy then we are attempting to match our pattern one position to the right and if successful then try match shorter list
